@@ -325,4 +325,47 @@ Proof.
     destruct (deref (h_heap s2) id); simpl in Q; inversion Q; subst. repeat split; eauto.
   - simpl in Q. rewrite deref_store in Q by (eapply deref_lt; eauto). rewrite Nat.eqb_refl in Q. simpl in Q. inversion Q; subst. repeat split; eauto.
 Qed.
+
+(* ---------- releasing a node (hashtable_node_deref) and the iterators parked elsewhere ---------- *)
+Lemma cov_unpark : forall s P hi0 cur s' ns hi c, GoodP s (hi0 :: P) -> hi_node hi0 = Some cur ->
+  node_deref s cur = Ok (s', ns) -> In hi P -> CovOne s hi c -> CovOne s' hi c.
+Proof.
+  intros s P hi0 cur s' ns hi c G Hc ND HP CV.
+  assert (Hb : In cur (bucket s (hi_bucket hi0))) by (apply (p_iter _ _ G hi0 cur); auto; left; auto).
+  assert (Hl : In cur (linked s)) by (eapply in_bucket_linked; eauto).
+  destruct (p_node _ _ G cur Hl) as [n [N1 [N2 N3]]].
+  rewrite pcount_cons in N2. unfold parked_on in N2. rewrite Hc, Nat.eqb_refl in N2.
+  assert (Hlt : cur < length (h_heap s)) by (eapply deref_lt; eauto).
+  unfold node_deref in ND. rewrite N1 in ND. simpl in ND. destruct (hn_ref n) as [|r] eqn:R. lia. destruct r.
+  - inversion ND; subst. clear ND.
+    assert (B0 : hn_removed n = true). { unfold base in N2. destruct (hn_removed n); auto. lia. }
+    assert (P0 : pcount P cur = 0) by (unfold base in N2; rewrite B0 in N2; lia).
+    apply (cov_unlink s _ cur hi c); auto.
+    + unfold is_live_id. rewrite (deref_ent _ _ _ N1). simpl. rewrite B0. auto.
+    + intro Q. generalize (pcount_pos P hi cur HP Q). lia.
+    + intros. rewrite nth_error_free_cell by auto. rewrite nth_error_store_other by auto. auto.
+  - inversion ND; subst. clear ND. apply cov_same_view; auto. eapply same_view_store; eauto.
+Qed.
+
+(* hashtable_iter_next by one iterator, seen from another iterator *)
+Lemma cov_next_other : forall s P hi s' hi' r ns hi2 c, GoodP s (hi :: P) ->
+  h_iter_next v_fixed s hi = Ok (s', hi', r, ns) -> In hi2 P -> CovOne s hi2 c -> CovOne s' hi2 c.
+Proof.
+  intros s P hi s' hi' r ns hi2 c G E HP CV.
+  destruct (iter_next_safe s P hi G) as [s0 [hi0 [r0 [ns0 [E0 [_ [_ [s1 [S1 [G1 S2]]]]]]]]]].
+  rewrite E in E0. inversion E0; subst. clear E0.
+  assert (C1 : CovOne s1 hi2 c).
+  { destruct S1 as [S1|[id [n [I1 [I2 S1]]]]]; subst; auto. apply cov_same_view; auto. eapply same_view_store; eauto. }
+  destruct (hi_node hi) as [cur|] eqn:Hc.
+  - destruct S2 as [ns1 S2]. eapply (cov_unpark s1 _ hi cur _ ns1 hi2 c G1 Hc S2); auto. right; auto.
+  - subst. auto.
+Qed.
+
+Lemma cov_free_other : forall s P hi s' ns hi2 c, GoodP s (hi :: P) ->
+  h_iter_free v_fixed s hi = Ok (s', ns) -> In hi2 P -> CovOne s hi2 c -> CovOne s' hi2 c.
+Proof.
+  unfold h_iter_free. simpl. intros. destruct (hi_node hi) as [cur|] eqn:Hc.
+  - eapply cov_unpark; eauto.
+  - inversion H0; subst; auto.
+Qed.
 End Cov.
